@@ -1086,7 +1086,7 @@ func init() {
 					}
 				}
 			}
-			for _, k := range []string{"concat-mismatch", "concat-rank", "concat-axis", "stack-mismatch", "stack-axis", "repeat-counts", "repeat-axis", "vstack-rank1"} {
+			for _, k := range []string{"concat-mismatch", "concat-mismatch-unit", "concat-mismatch-longer", "hstack-mismatch-unit", "vstack-mismatch-unit", "concat-rank", "concat-axis", "stack-mismatch", "stack-axis", "repeat-counts", "repeat-axis", "vstack-rank1"} {
 				out = append(out, mkInst("vhC10Refuse", map[string]interface{}{"kind": k}, "kind"))
 			}
 			return out
